@@ -77,7 +77,7 @@ def make_spec(run_seed, tier, prop, choice_weights=None, forced_prob=0.0, branch
     if rs.random() < 0.06:
         # the audited generation follows one that was aborted half-way on the same parsed object: the caller's generator
         # raises (RuntimeError or KeyboardInterrupt) at its k-th call
-        spec["abort_first"] = {"at": rs.choice([0, 1, 2, 3, 5, 8, 13, 21, 34]), "how": rs.choice(["raise", "interrupt"]), "seed": rs.randrange(1 << 40)}
+        spec["abort_first"] = {"at": rs.choice([0, 1, 2, 3, 5, 8, 13, 21, 34]), "how": rs.choice(["raise", "interrupt", "value"]), "seed": rs.randrange(1 << 40)}
     if rs.random() < 0.12:
         spec["again"] = rs.randrange(1 << 40)  # a second, fully audited generation from the same parsed object
     # (a left terminal with a weight or list of its own becomes the right terminal of the mirror: mirrored more often)
